@@ -52,10 +52,14 @@ def _par(jobs):
 def _case_sig(c):
     k = c["kind"]
     if k == "http":
-        return "kind=http out=%s" % c["out"]["kind"]
+        side = c.get("side")
+        return "kind=http out=%s%s" % (c["out"]["kind"], " side=answlog:%s,httptrace:%s" % (side["answlog"], side["trace"]) if side else "")
+    if k == "scncancel":
+        return "kind=scncancel gun=%s when=%s" % (c["gun"], c["when"])
     if k == "tag":
         at = c["at"]
-        return "kind=tag fmt=%s tag=%s auto=%s notagonly=%s" % (c["fmt"], "yes" if c["tag"] else "no", at["enabled"], at["notagonly"])
+        return "kind=tag fmt=%s tag=%s auto=%s notagonly=%s%s" % (c["fmt"], "yes" if c["tag"] else "no", at["enabled"], at["notagonly"],
+                                                                  " uri=no-path" if c.get("nopath") else "")
     if k == "grpc":
         return "kind=grpc status=%d" % c["status"]
     if k in ("grpcbad", "grpcfail"):
@@ -140,15 +144,17 @@ def _finish(v, rows, tr, what):
 def run(tier, v):
     thorough = tier == "thorough"
     sfx = "_big" if thorough else ""
-    negs = ["swap", "grpc_internal", "double", "double_post", "id_local", "depth_off", "no_empty"]
+    negs = ["swap", "grpc_internal", "double", "double_post", "double_cancel", "no_empty_auto", "id_local", "depth_off", "no_empty"]
     # 1. design level + negative controls + generator, concurrently
     d = vlib.scratch()
     cases = os.path.join(d, "cases.ndjson")
-    jobs = [(("SampleCodingMC", "SampleCoding_exh.cfg"), dict(deadlock=False, workers=2, heap="4g", timeout=1200)),
+    # quick: one shot per instance (all interleavings of two instances); thorough: two shots each
+    exh = "SampleCoding_exh.cfg" if thorough else "SampleCoding_exh_quick.cfg"
+    jobs = [(("SampleCodingMC", exh), dict(deadlock=False, workers=2, heap="4g", timeout=1200)),
             (("SampleCodingGen", "SampleCoding_gen%s.cfg" % sfx), dict(env={"VERIF_OUT": cases}, workers=1, heap="4g", timeout=1200, deadlock=False))]
     jobs += [(("SampleCodingMC", "SampleCoding_neg_%s.cfg" % n), dict(deadlock=False, workers=1, heap="2g", timeout=600)) for n in negs]
     res = _par(jobs)
-    vlib.tlc_must_pass(res[0], "SampleCoding_exh.cfg")
+    vlib.tlc_must_pass(res[0], exh)
     states, trans = res[0].distinct, res[0].generated
     g = res[1]
     if g.error or g.violation or not os.path.exists(cases):
@@ -220,6 +226,10 @@ def run(tier, v):
         "scenario step that fails before sending (preprocessor / template): exactly one sample, proto 0, net not pinned; step whose "
         "postprocessor fails after a complete response: exactly one sample, proto = status received, net not pinned",
         "gRPC: ammo always tagged; unknown method / ill-typed payload: only 'exactly one sample' is decided",
+        "URIs without a path (query only, absolute-form): no auto-tag can be derived, __EMPTY__ unless the entry is tagged; a "
+        "tagged entry with no-tag-only off is left out (the gun appends an empty tag, 't1|')",
+        "cancelled scenario shots: the executed steps must be a prefix with one sample each (today's guns ignore the cancellation "
+        "and finish the shot); the moment the cancel lands is not asserted",
         "timeout case uses response-header-timeout 150 ms against a target that never answers (one-sided: no upper bound asserted)",
         "trusted: harness recorder (harness/cmd/vdrive/samplecoding.go, httpwire_common.go, harness/internal/targets)",
     ]
